@@ -23,6 +23,8 @@
  *                                | "TRYREAD CRASH <how> <enc first sanitizer line>" | "TRYREAD TIMEOUT"
  *   TRYBASIS <h> <file>         C11: child: mpq_QSread_basis + mpq_QSread_and_load_basis on problem h
  *   DUMP <h> | DUMPO <h>        by names, sorted by name | in index order
+ *   DUMPC <h>                   by columns in the storage order of the matrix: "PC <sense> <ncols> <nrows> <probname> <objname|-> <intmarker?> <rangeval?>",
+ *                               "CC <name> <obj> <lo> <up> <int> <k> (<rowname> <coef>)*k", "RR <name> <sense> <rhs> <range>"
  *   SOLVE <h>                   QSexact_solver -> "SOLVE <rv> <status> <objval|->" ; "X ..." ; "PI ..."
  *   OPT <h> PRIMAL|DUAL         mpq_QSopt_primal/dual (uses/creates the problem's own basis)
  *   GETBASIS <h>                "BASIS <cstat> <rstat>"
@@ -295,6 +297,71 @@ DONE:
 	if (rowbeg) mpq_QSfree (rowbeg);
 	if (rowind) mpq_QSfree (rowind);
 	if (sense) mpq_QSfree (sense);
+	return rv;
+}
+
+/* ---- dump by columns (storage order of the matrix, which is the order the MPS writer walks) ------------------------ */
+static int dump_columns (FILE * o, mpq_QSdata * p)
+{
+	int ncols = mpq_QSget_colcount (p), nrows = mpq_QSget_rowcount (p);
+	int j, k, rv = 0, os = 0;
+	int *colcnt = 0, *colbeg = 0, *colind = 0, *intf = 0;
+	mpq_t *colval = 0, *obj = 0, *lo = 0, *up = 0, *rhs = 0, *range = 0;
+	char **cn = 0, **rn = 0, *sense = 0, *pn;
+	rv = mpq_QSget_objsense (p, &os);
+	if (rv) return rv;
+	intf = (int *) calloc (ncols + 1, sizeof (int));
+	rn = (char **) calloc (nrows + 1, sizeof (char *));
+	sense = (char *) calloc (nrows + 1, 1);
+	rhs = mpq_EGlpNumAllocArray (nrows + 1);
+	range = mpq_EGlpNumAllocArray (nrows + 1);
+	rv = mpq_QSget_columns (p, &colcnt, &colbeg, &colind, &colval, &obj, &lo, &up, &cn);
+	if (!rv && ncols) rv = mpq_QSget_intflags (p, intf);
+	if (!rv && nrows) rv = mpq_QSget_rownames (p, rn);
+	if (!rv && nrows) rv = mpq_QSget_senses (p, sense);
+	if (!rv && nrows) rv = mpq_QSget_rhs (p, rhs);
+	if (rv) goto DONE;
+	for (k = 0; k < nrows; k++)
+	{
+		if (p->qslp->rangeval) mpq_set (range[k], p->qslp->rangeval[k]); else mpq_set_ui (range[k], 0UL, 1UL);
+	}
+	pn = mpq_QSget_probname (p);
+	fprintf (o, "PC %s %d %d ", os == QS_MAX ? "MAX" : "MIN", ncols, nrows);
+	if (pn) { put_enc (o, pn, -1); mpq_QSfree (pn); } else fputc ('-', o);
+	fputc (' ', o);
+	if (p->qslp->objname) put_enc (o, p->qslp->objname, -1); else fputc ('-', o);
+	fprintf (o, " %d %d\n", p->qslp->intmarker ? 1 : 0, p->qslp->rangeval ? 1 : 0);
+	for (j = 0; j < ncols; j++)
+	{
+		fputs ("CC ", o); put_enc (o, cn[j] ? cn[j] : "", -1); fputc (' ', o);
+		qsx_print_q (o, obj[j]); fputc (' ', o);
+		qsx_print_q (o, lo[j]); fputc (' ', o);
+		qsx_print_q (o, up[j]);
+		fprintf (o, " %d %d", intf[j] ? 1 : 0, colcnt[j]);
+		for (k = colbeg[j]; k < colbeg[j] + colcnt[j]; k++)
+		{
+			int r = colind[k];
+			fputc (' ', o); put_enc (o, (r >= 0 && r < nrows && rn[r]) ? rn[r] : "?", -1); fputc (' ', o);
+			qsx_print_q (o, colval[k]);
+		}
+		fputc ('\n', o);
+	}
+	for (k = 0; k < nrows; k++)
+	{
+		fputs ("RR ", o); put_enc (o, rn[k] ? rn[k] : "", -1);
+		fprintf (o, " %c ", sense[k]);
+		qsx_print_q (o, rhs[k]); fputc (' ', o);
+		qsx_print_q (o, range[k]); fputc ('\n', o);
+	}
+DONE:
+	for (k = 0; k < nrows; k++) if (rn && rn[k]) mpq_QSfree (rn[k]);
+	for (j = 0; j < ncols; j++) if (cn && cn[j]) mpq_QSfree (cn[j]);
+	free (rn); if (cn) mpq_QSfree (cn); free (intf); free (sense);
+	mpq_EGlpNumFreeArray (colval); mpq_EGlpNumFreeArray (obj); mpq_EGlpNumFreeArray (lo); mpq_EGlpNumFreeArray (up);
+	mpq_EGlpNumFreeArray (rhs); mpq_EGlpNumFreeArray (range);
+	if (colcnt) mpq_QSfree (colcnt);
+	if (colbeg) mpq_QSfree (colbeg);
+	if (colind) mpq_QSfree (colind);
 	return rv;
 }
 
@@ -603,6 +670,10 @@ int main (int argc, char **argv)
 			else if (!strcmp (op, "DUMP") || !strcmp (op, "DUMPO"))
 			{
 				if (dump_names (stdout, P, op[4] != 'O')) printf ("P ERR\n");
+			}
+			else if (!strcmp (op, "DUMPC"))
+			{
+				if (dump_columns (stdout, P)) printf ("PC ERR\n");
 			}
 			else if (!strcmp (op, "TRYBASIS"))
 			{
